@@ -98,6 +98,16 @@ def corpus():
         subs={"Sub": dict(sub_loop, terminate_sim_when="c")},
         compose=[("do", "Sub", None), ("log", "after"), ("loop", [("wait",)])],
         values={}, conds=["c"])
+    P["sub-record-stops-with-the-sub-scenario"] = dict(
+        agents=[("a0", "B0")], behaviors={"B0": beh("a0")}, monitor=None, record=True,
+        subs={"Sub": dict(sub_loop, record=True)},
+        compose=[("do", "Sub", ("for", "N", "steps")), ("log", "after"), ("loop", [("wait",)])],
+        values={"N": ("int", 0, 5)}, conds=[])
+    P["sub-record-terminate-after"] = dict(
+        agents=[("a0", "B0")], behaviors={"B0": beh("a0")}, monitor=None, record=True,
+        subs={"Sub": dict(sub_loop, record=True, terminate_after=("N", "steps"))},
+        compose=[("do", "Sub", None), ("log", "after"), ("loop", [("wait",)])],
+        values={"N": ("int", 0, 5)}, conds=[])
     P["behavior-do-for-steps"] = dict(
         agents=[("a0", "Top"), ("a1", "B1")],
         behaviors={"Inner": [("loop", [("log", "inner"), ("take", "act:inner")])],
